@@ -1,7 +1,7 @@
 """Signature-module synthesiser for C12/C13: modules of functions/methods of every kind with every parameter-kind
 combination, optional source annotations, long names; plus synthesised CallTraces for a drawn traced subset."""
 import importlib
-from typing import Dict, List, Optional
+from typing import Dict, List, Optional, Union
 
 from hypothesis import strategies as st
 
@@ -29,10 +29,12 @@ HEADER = ("from typing import *\nfrom fxh import Base as Helper\nUserId = NewTyp
 def traced_types():
     import fxh
     return [None, int, str, List[int], Optional[float], fxh.D1, Dict[str, int], type(None), Dict[str, List[Dict[str, Optional[int]]]],
-            ("TD", ("alpha", "beta")), ("TD", ("my-key", "class")), fxh.Registry]  # Registry: a class that is FALSY (its metaclass defines __len__)
+            ("TD", ("alpha", "beta")), ("TD", ("my-key", "class")), fxh.Registry,  # Registry: a class that is FALSY (its metaclass defines __len__)
+            # six unrelated members: the default rewriter chain turns this into Any (which then IS the traced type)
+            Union[int, str, float, bytes, complex, fxh.D1]]
 
 
-N_TRACED = 12
+N_TRACED = 13
 
 
 @st.composite
@@ -50,7 +52,7 @@ def func(draw, i):
             elif seen_def:
                 d = "None"
         ps.append(dict(name=name, kind=kd, default=d, anno=draw(st.sampled_from(ANNOS)),
-                       traced=draw(st.sampled_from([0, 0, 1, 2, 3, 4, 5, 6, 7, 8, 9, 9, 10, 11, 11]))))
+                       traced=draw(st.sampled_from([0, 0, 1, 2, 3, 4, 5, 6, 7, 8, 9, 9, 10, 11, 11, 12]))))
     where = draw(st.sampled_from(WHERE))
     if ps and where in ("top", "async", "gen", "staticmethod", "substaticmethod") and draw(st.integers(0, 5)) == 0:
         # an ordinary first parameter that merely LOOKS like a receiver: a module-level function or static method has none
@@ -60,7 +62,7 @@ def func(draw, i):
                 second_trace=draw(st.sampled_from([None, None, "exception", "exception", "other-return"])),
                 wrapdeco=draw(st.sampled_from([False, False, False, True])),
                 ret_anno=draw(st.sampled_from(ANNOS)), outcome=draw(st.sampled_from(["return", "yield", "yield+return", "yield+none", "exception"])),
-                ret_traced=draw(st.sampled_from([1, 2, 3, 5, 6, 9, 11])), yield_traced=draw(st.sampled_from([1, 2, 3, 5, 11])),
+                ret_traced=draw(st.sampled_from([1, 2, 3, 5, 6, 9, 11, 12])), yield_traced=draw(st.sampled_from([1, 2, 3, 5, 11])),
                 recv_anno=draw(st.sampled_from([None, None, '"K"', "Any"])),
                 is_traced=draw(st.sampled_from([True, True, True, False])), fname=draw(st.sampled_from(FNAMES)) + str(i))
     if f["where"] in ("top", "async", "gen", "typescoro") and f["ret_traced"] == 9:
